@@ -3,6 +3,7 @@ package main
 import (
 	"fmt"
 	"go/token"
+	"go/types"
 	"os"
 	"regexp"
 	"sort"
@@ -24,12 +25,26 @@ var readRootRe = regexp.MustCompile(`^(Parse|Open|Decode|New(Message|Value)List)
 
 func readCone(c *Ctx) []*ssa.Function {
 	var roots []*ssa.Function
-	for _, rel := range []string{"internal/decode", "internal/types", "internal/format", "."} {
+	// proto/pmpx and proto/prpc are checked-in output of the generator: their read side (Open*/Parse*/Decode* and the
+	// accessors of the generated message types) is verified as an instance of what the generator emits
+	for _, rel := range []string{"internal/decode", "internal/types", "internal/format", ".", "proto/pmpx", "proto/prpc"} {
 		for _, f := range c.SrcFuncs(rel) {
 			if f.Parent() != nil {
 				continue
 			}
 			name := f.Name()
+			if strings.HasPrefix(rel, "proto/") {
+				isRead := f.Signature.Recv() == nil && readRootRe.MatchString(name) && !strings.HasPrefix(name, "New")
+				if recv := f.Signature.Recv(); recv != nil {
+					// accessors of generated readers: value receivers wrapping a spec.Message (not the writers)
+					if st, ok := recv.Type().Underlying().(*types.Struct); ok && st.NumFields() == 1 && typeIs(st.Field(0).Type(), pkgPath("internal/types"), "Message") {
+						isRead = true
+					}
+				}
+				if !isRead {
+					continue
+				}
+			}
 			if rel == "." {
 				isRead := readRootRe.MatchString(name)
 				if recv := f.Signature.Recv(); recv != nil {
@@ -75,7 +90,10 @@ func readCone(c *Ctx) []*ssa.Function {
 		seen[f] = true
 		out = append(out, f)
 		for _, call := range callsIn(f, true) {
-			visit(call.Common().StaticCallee())
+			if cal := c.calleeOf(call.Common()); cal != nil && !seen[cal] && os.Getenv("DBGCONE") != "" {
+				fmt.Fprintf(os.Stderr, "cone: %s -> %s\n", fnKey(f), fnKey(cal))
+			}
+			visit(c.calleeOf(call.Common()))
 		}
 		for _, a := range f.AnonFuncs {
 			visit(a)
@@ -110,8 +128,12 @@ func runR02_1(c *Ctx, outer *R) {
 	for _, rel := range analysedPkgs {
 		module = append(module, c.SrcFuncs(rel)...)
 	}
+	e.inferPost(cone)
 	if pre := e.inferPre(cone, module); len(pre) > 0 {
 		r.Note("inferred preconditions of private helpers (proved at every call site, assumed in the body): %s", strings.Join(pre, "; "))
+	}
+	if post := e.inferPost(cone); len(post) > 0 {
+		r.Note("inferred size postconditions of private helpers (proved at every return, assumed at the calls): %s", strings.Join(post, "; "))
 	}
 	kinds := map[string]int{}
 	for _, fn := range cone {
